@@ -48,7 +48,7 @@ fn info(tier: Tier) -> CheckInfo {
         ),
         assumptions: vec!["floating-point sums are compared with a relative tolerance of 1e-9".into()],
     };
-    ci.rule.push_str(" Added: 24 announcers on one info hash in the store search; histories with a target whose lookups nobody answers, looked up twice with one other step before, between or after.");
+    ci.rule.push_str(" Added: 24 announcers on one info hash in the store search; histories with a target whose lookups nobody answers, looked up twice with one other step before, between or after. Also: histories that return to a target six idle minutes later (its cached lookup's tokens have expired); an adaptive node configured with capacities (2x1 peers, 2 values, 1 item) whose stores are filled after it turned into a server: the configured capacities are in force before and after the switch.");
     ci
 }
 
@@ -406,6 +406,86 @@ fn long_run(out: &mut Partial) {
     }
 }
 
+/// A node built in the default (adaptive) mode with store capacities (peers 2x1, values 2, items
+/// 1) turns into a server at its first refresh; afterwards three writers fill its stores past
+/// those capacities. The capacities in force are the configured ones, before and after the switch.
+fn adaptive_caps(out: &mut Partial) {
+    let mut w = World::new(Chooser::default_run());
+    let own: Id20 = [0x21; 20];
+    let ids = crate::epnet::ranked_ids(&own, 4);
+    let mut net = EpNet::new(&mut w, &ids);
+    let boots = net.addrs();
+    let mut cfg = NodeCfg::new([93, 184, 216, 34], 7000).bootstrap(&boots).id(own);
+    cfg.server_settings = Some(dht::ServerSettings { max_info_hashes: 2, max_peers_per_info_hash: 1, max_immutable_values: 2, max_mutable_values: 1, ..Default::default() });
+    let a = w.add_node(cfg);
+    let a_addr = w.node_addr(a);
+    let start = w.now;
+    let mut problems: Vec<(String, String)> = vec![];
+    let caps = |s: &ActorSnapshot| (s.core.server.peers_cap, s.core.server.immutable_cap, s.core.server.mutable_cap);
+    let want = ((2usize, 1usize), 2usize, 1usize);
+    let mut token: Option<Vec<u8>> = None;
+    let mut sent_writes = false;
+    let writer = net.eps[0].addr;
+    let writer_id = net.eps[0].id;
+    let values: [&[u8]; 3] = [b"caps value one", b"caps value two", b"caps value three"];
+    let mut became_server_at = None;
+    for minute in 1..=20u64 {
+        let hz = start + minute * MIN;
+        w.run_until(hz, |w, ev| {
+            if let Event::EndpointRecv { ep, dgram } = ev {
+                if let Some(k) = krpc::Krpc::parse(&dgram.bytes) {
+                    if k.is_response() {
+                        if let Some(t) = k.res_bytes("token") {
+                            token = Some(t.to_vec());
+                        }
+                        return false;
+                    }
+                }
+                net.handle(w, *ep, dgram);
+            }
+            false
+        });
+        let s = w.snapshot(a);
+        if s.core.server_mode && became_server_at.is_none() {
+            became_server_at = Some(minute);
+        }
+        if caps(&s) != want {
+            problems.push(("capacities-not-the-configured-ones".into(), format!("minute {minute} (server mode: {}): capacities (peers, values, items) in force are {:?}, configured {:?}", s.core.server_mode, caps(&s), want)));
+            break;
+        }
+        if minute == 17 {
+            w.send_raw(writer, a_addr, krpc::q_get(&[0, 0, 1, 1], &writer_id, &krpc::immutable_target(values[0]), None));
+        }
+        if minute == 18 && !sent_writes {
+            sent_writes = true;
+            if let Some(t) = &token {
+                for (i, v) in values.iter().enumerate() {
+                    w.send_raw(writer, a_addr, krpc::q_put_immutable(&[0, 0, 2, i as u8], &writer_id, &krpc::immutable_target(v), t, v));
+                }
+            }
+        }
+    }
+    let s = w.snapshot(a);
+    if became_server_at.is_none() {
+        problems.push(("part-setup/adaptive-node-did-not-become-a-server".into(), "the adaptive node on a reachable public address is not a server after 20 minutes".into()));
+    } else if token.is_none() {
+        problems.push(("part-setup/no-token".into(), "the node (a server by now) issued no token to a get at minute 17".into()));
+    } else {
+        out.add("adaptive_node_stores_filled", 1);
+        if s.core.server.immutable.len() > 2 {
+            problems.push(("store-over-capacity/immutable".into(), format!("three values were written to a node configured to hold 2: it holds {}", s.core.server.immutable.len())));
+        }
+        if s.core.server.immutable.is_empty() {
+            problems.push(("part-setup/nothing-stored".into(), "three valid writes with a fresh token left the store empty".into()));
+        }
+    }
+    out.add("executions", 1);
+    out.add("transitions", w.steps);
+    for (k, d) in problems {
+        out.violation(format!("stores/{k}/adaptive-node"), format!("adaptive node that turns into a server at minute {became_server_at:?}: {d}"), json!({"part": "adaptive-caps"}));
+    }
+}
+
 /// 1003 distinct lookup targets (plus repeats) roll the 1000-entry lookup cache.
 fn cache_roll(out: &mut Partial) {
     let mut w = World::new(Chooser::default_run());
@@ -537,6 +617,9 @@ fn run(tier: Tier, shard: usize, nshards: usize, _seed: u64) -> Partial {
     if shard == 2 % nshards {
         super::guard_dead_actor(&mut out, "periodic-refresh", json!({"part": "long"}), |out| long_run(out));
     }
+    if shard == 3 % nshards {
+        super::guard_dead_actor(&mut out, "adaptive-caps", json!({"part": "adaptive-caps"}), |out| adaptive_caps(out));
+    }
     // (c) histories
     let d = depth(tier);
     let alphabet: Vec<(usize, usize)> = (0..5).flat_map(|o| (0..3).map(move |t| (o, t))).collect();
@@ -596,6 +679,7 @@ fn run(tier: Tier, shard: usize, nshards: usize, _seed: u64) -> Partial {
             super::guard_dead_actor(&mut out, "peer-target", json!({"part": "peer-target", "m": m, "ops": ops}), |out| target_is_a_peer(m, &ops, out));
         }
     }
+    out.witness("the adaptive node's stores were filled after its switch", out.count("adaptive_node_stores_filled") > 0 || shard != 3 % nshards);
     out.witness("quiescent snapshots were taken", out.count("quiescent_snapshots") > 0);
     out.witness("consistent histories exist", out.count("consistent_histories") > 0 || shard > 2);
     out.sample(json!({"part": "c", "history": ["find_node(own)", "get_peers(t1)", "find_node(own)"]}));
@@ -624,6 +708,7 @@ fn replay(v: &Value) -> Result<Option<Violation>, String> {
             target_is_a_peer(v.get("m").and_then(|m| m.as_u64()).unwrap_or(1) as usize, &ops, &mut out)
         }
         Some("long") => long_run(&mut out),
+        Some("adaptive-caps") => adaptive_caps(&mut out),
         Some("roll") => cache_roll(&mut out),
         _ => {
             // store BFS paths
